@@ -609,7 +609,8 @@ fn check_inner(prop: &dyn Prop, tier: Tier, root: &Path, work: &Path, seed: u64)
     cov.insert("exhaustive".into(), json!(!capped));
     cov.insert("bound".into(), json!(prop.bound(tier)));
     if level == "model_checking" {
-        cov.insert("states".into(), json!(reports.iter().map(|r| r.states).sum::<u64>()));
+        cov.insert("states".into(), json!(reports.iter().map(|r| r.states).max().unwrap_or(0)));
+        cov.insert("states_note".into(), json!("distinct states of one profile's exploration (the same space is explored once per build profile; see per_profile); transitions and traces are summed over profiles because each is a separate execution of the real code"));
         cov.insert("transitions".into(), json!(reports.iter().map(|r| r.totals.transitions).sum::<u64>()));
         cov.insert("traces_validated_against_impl".into(), json!(reports.iter().map(|r| r.validated).sum::<u64>()));
     }
